@@ -467,8 +467,8 @@ func (r *RTPReceiver) collectStats(collector *statsReportCollector, statsGetter 
 
 		inboundID := fmt.Sprintf("inbound-rtp-%d", uint32(remoteTrack.SSRC()))
 		codecID := ""
-		if remoteTrack.codec.statsID != "" {
-			codecID = remoteTrack.codec.statsID
+		if codec := remoteTrack.Codec(); codec.statsID != "" {
+			codecID = codec.statsID
 		}
 
 		inboundStats := InboundRTPStreamStats{
